@@ -57,6 +57,31 @@ func (tr *FnTrans) run() (err error) {
 			tr.stableVals = append(tr.stableVals, v)
 			tr.stableTypes = append(tr.stableTypes, v.Ty.Underlying().(*types.Pointer).Elem())
 		}
+		for _, sx := range tr.c.StableFields {
+			ex, err := parseExpr(sx)
+			if err != nil || ex.Op != "sel" {
+				panic(unsupported("stable-field " + sx + ": want expr.field"))
+			}
+			base := entryEnv.eval(ex.A[0])
+			pt, ok := base.Ty.Underlying().(*types.Pointer)
+			if !ok {
+				panic(unsupported("stable-field " + sx + ": base is not a pointer to a struct"))
+			}
+			stt, ok := pt.Elem().Underlying().(*types.Struct)
+			if !ok {
+				panic(unsupported("stable-field " + sx + ": base is not a pointer to a struct"))
+			}
+			fi := -1
+			for i := 0; i < stt.NumFields(); i++ {
+				if stt.Field(i).Name() == ex.S {
+					fi = i
+				}
+			}
+			if fi < 0 {
+				panic(unsupported("stable-field " + sx + ": no such field"))
+			}
+			tr.stableFlds = append(tr.stableFlds, stableFld{addr: tr.fldAddr(base.T, stt, fi), ty: stt.Field(fi).Type(), owner: pt.Elem(), field: ex.S, src: sx})
+		}
 		var reqs []string
 		for _, r := range tr.c.Requires {
 			t := tr.assumeHyp(entryEnv, r.E, "true", "requires "+r.Src)
@@ -342,6 +367,7 @@ func (tr *FnTrans) loopHeader(h *ssa.BasicBlock, ord int, st *BState, phiVal fun
 		}
 	}
 	tr.assumeStable(st, preLoopHeap, st.heap)
+	tr.preserveCaptured(st, preLoopHeap, st.heap)
 	tr.assumeGlobalInvs(st.reach, st.heap)
 	{
 		// local variables the loop does not assign keep their value
@@ -350,6 +376,44 @@ func (tr *FnTrans) loopHeader(h *ssa.BasicBlock, ord int, st *BState, phiVal fun
 			assigned[al] = true
 		}
 		for _, al := range tr.allocs {
+			if assigned[al] && !tr.escapeOf(al) {
+				// a struct variable of which the loop assigns only some fields: the others keep their value
+				v, ok := tr.vals[al]
+				paths := tr.loopObjPaths[al]
+				whole := len(paths) == 0
+				for _, p := range paths {
+					if len(p) == 0 {
+						whole = true
+					}
+				}
+				if ok && !whole {
+					var walk func(addr string, t types.Type, path []int)
+					walk = func(addr string, t types.Type, path []int) {
+						for _, p := range paths {
+							if len(p) == len(path) {
+								same := true
+								for i := range p {
+									if p[i] != path[i] {
+										same = false
+									}
+								}
+								if same {
+									return // assigned in the loop
+								}
+							}
+						}
+						if stt, isStruct := t.Underlying().(*types.Struct); isStruct {
+							for i := 0; i < stt.NumFields(); i++ {
+								walk(tr.fldAddr(addr, stt, i), stt.Field(i).Type(), append(append([]int{}, path...), i))
+							}
+							return
+						}
+						tr.stableCells(st, addr, t, preLoopHeap, st.heap)
+					}
+					walk(v.T, al.Type().Underlying().(*types.Pointer).Elem(), nil)
+				}
+				continue
+			}
 			if assigned[al] || tr.escapeOf(al) {
 				continue
 			}
@@ -638,9 +702,25 @@ func (tr *FnTrans) instr(st *BState, in ssa.Instruction) {
 			}
 			idx := v.Tuple[0]
 			tr.assume(st.reach, and(tr.ivLe(tr.lit64(lo), idx.T), tr.ivLt(idx.T, tr.lit64(int64(len(x.States))))), "select picks one of its cases")
+			// each case is an observation point that happens exactly when it is the one picked
+			recvN := 0
+			for i, sc := range x.States {
+				picked := and(st.reach, fmt.Sprintf("(= %s %s)", idx.T, tr.lit64(int64(i))))
+				if sc.Dir == types.SendOnly {
+					tr.eventSite(st, eventKey{x, i}, "send", []Val{tr.val(sc.Chan), tr.val(sc.Send)}, []string{"ch", "x"}, nil, nil, picked, sc.Pos)
+				} else {
+					var res []Val
+					if 2+recvN < len(v.Tuple) {
+						res = []Val{v.Tuple[2+recvN], v.Tuple[1]}
+					}
+					recvN++
+					tr.eventSite(st, eventKey{x, i}, "recv", []Val{tr.val(sc.Chan)}, []string{"ch"}, res, []string{"res", "ok"}, picked, sc.Pos)
+				}
+			}
 		}
 		tr.vals[x] = v
 	case *ssa.Send:
+		tr.eventSite(st, eventKey{x, -1}, "send", []Val{tr.val(x.Chan), tr.val(x.X)}, []string{"ch", "x"}, nil, nil, st.reach, x.Pos())
 	case *ssa.Slice:
 		tr.sliceOp(st, x)
 	case *ssa.SliceToArrayPointer:
@@ -681,6 +761,41 @@ func (tr *FnTrans) instr(st *BState, in ssa.Instruction) {
 		}
 	default:
 		panic(unsupported(fmt.Sprintf("instruction %T", in)))
+	}
+}
+
+// eventKey identifies a channel operation: a send / receive instruction, or one case of a select.
+type eventKey struct {
+	in    ssa.Instruction
+	state int
+}
+
+// eventSite records a channel operation the contract names (`site send#k as a`, `site recv#k as a`)
+// as an observation point and emits the assertions attached to it.
+func (tr *FnTrans) eventSite(st *BState, key eventKey, kind string, args []Val, names []string, results []Val, resNames []string, reach string, pos token.Pos) {
+	for _, alias := range tr.eventSites[key] {
+		site := &Site{Callee: kind, Args: args, ParamNames: names, Results: results, ResNames: resNames, Reach: reach, Before: st.heap, After: st.heap, Block: tr.curBlock, Index: tr.curIdx, Pos: pos}
+		st.heap = st.heap.child()
+		tr.siteByAlias[alias] = site
+		if tr.c == nil {
+			continue
+		}
+		for _, sa := range tr.c.Asserts {
+			if sa.Alias != alias {
+				continue
+			}
+			env := tr.envAt(tr.curBlock, tr.curIdx+1, site.Before, tr.entryHeap)
+			lbl := sa.C.Name
+			if lbl == "" {
+				lbl = alias
+			}
+			if sa.Assume {
+				tr.assume(reach, env.evalHyp(sa.C.E), "ghost definition at "+alias+": "+sa.C.Src)
+				tr.usedSpecs["ghost definition (each execution of the site defines the ghost function at a new argument): "+tr.name+": "+sa.C.Src] = true
+				continue
+			}
+			tr.oblige("site-assert["+lbl+"]", "at "+alias+": "+sa.C.Src, reach, env.evalGoal(sa.C.E), pos)
+		}
 	}
 }
 
@@ -778,7 +893,14 @@ func (tr *FnTrans) unop(st *BState, x *ssa.UnOp) {
 		}
 		tr.vals[x] = Val{T: fmt.Sprintf("(bvnot %s)", v.T), Ty: x.Type()}
 	case token.ARROW:
-		tr.vals[x] = tr.introduce(x.Name(), x.Type(), st.reach, "chan-recv")
+		v := tr.introduce(x.Name(), x.Type(), st.reach, "chan-recv")
+		tr.vals[x] = v
+		res := []Val{v}
+		names := []string{"res"}
+		if len(v.Tuple) == 2 {
+			res, names = v.Tuple, []string{"res", "ok"}
+		}
+		tr.eventSite(st, eventKey{x, -1}, "recv", []Val{tr.val(x.X)}, []string{"ch"}, res, names, st.reach, x.Pos())
 	default:
 		panic(unsupported("unary operator " + x.Op.String()))
 	}
@@ -1002,6 +1124,16 @@ func (tr *FnTrans) backEdges(st *BState, in ssa.Instruction) {
 		if spec != nil {
 			for _, sa := range spec.StepAsserts {
 				env := tr.envAt(b, len(b.Instrs), st.heap, tr.entryHeap)
+				// next(v): the value the loop variable v has at the start of the next iteration
+				for _, hi := range h.Instrs {
+					phi, ok := hi.(*ssa.Phi)
+					if !ok {
+						break
+					}
+					if phi.Comment != "" {
+						env.vars["next:"+phi.Comment] = tr.val(phi.Edges[predIdx])
+					}
+				}
 				lbl := sa.Name
 				if lbl == "" {
 					lbl = fmt.Sprint(ord)
@@ -1140,6 +1272,43 @@ func (tr *FnTrans) resolveSites() {
 	for _, sd := range tr.c.Sites {
 		k := 0
 		found := false
+		if sd.Pattern == "send" || sd.Pattern == "recv" {
+			// the k-th channel send / receive in source order (select cases included)
+			type ev struct {
+				key eventKey
+				pos token.Pos
+			}
+			var evs []ev
+			for _, b := range tr.fn.Blocks {
+				for _, in := range b.Instrs {
+					switch x := in.(type) {
+					case *ssa.Send:
+						if sd.Pattern == "send" {
+							evs = append(evs, ev{eventKey{x, -1}, x.Pos()})
+						}
+					case *ssa.UnOp:
+						if x.Op == token.ARROW && sd.Pattern == "recv" {
+							evs = append(evs, ev{eventKey{x, -1}, x.Pos()})
+						}
+					case *ssa.Select:
+						for i, sc := range x.States {
+							if (sc.Dir == types.SendOnly) == (sd.Pattern == "send") {
+								evs = append(evs, ev{eventKey{x, i}, sc.Pos})
+							}
+						}
+					}
+				}
+			}
+			sort.SliceStable(evs, func(i, j int) bool { return evs[i].pos < evs[j].pos })
+			if sd.K >= 1 && sd.K <= len(evs) {
+				k := evs[sd.K-1].key
+				tr.eventSites[k] = append(tr.eventSites[k], sd.Alias)
+				tr.eventAliases[sd.Alias] = true
+			} else {
+				tr.missingSites = append(tr.missingSites, sd)
+			}
+			continue
+		}
 		if strings.HasPrefix(sd.Pattern, "store:") {
 			// the k-th assignment (source order) to a field of that name
 			fname := strings.TrimPrefix(sd.Pattern, "store:")
@@ -1263,6 +1432,43 @@ func (tr *FnTrans) siteFor(alias string) *Site {
 		return s
 	}
 	ci, ok := tr.siteInstr[alias]
+	if !ok && tr.eventAliases[alias] {
+		// a channel operation that has not been translated yet: not on any path to here
+		if g, ok := tr.ghostSites[alias]; ok {
+			return g
+		}
+		g := &Site{Callee: "event", Reach: "false", Before: tr.entryHeap, After: tr.entryHeap}
+		for key, aliases := range tr.eventSites {
+			for _, a := range aliases {
+				if a != alias {
+					continue
+				}
+				var ch ssa.Value
+				isSend := false
+				switch x := key.in.(type) {
+				case *ssa.Send:
+					ch, isSend = x.Chan, true
+				case *ssa.UnOp:
+					ch = x.X
+				case *ssa.Select:
+					ch, isSend = x.States[key.state].Chan, x.States[key.state].Dir == types.SendOnly
+				}
+				if ch == nil {
+					continue
+				}
+				ct := ch.Type().Underlying().(*types.Chan)
+				gv := func(n string, t types.Type) Val { return tr.introduce("ghost_"+alias+"_"+n, t, "false", "channel operation not on this path") }
+				g.Args, g.ParamNames = []Val{gv("ch", ch.Type())}, []string{"ch"}
+				if isSend {
+					g.Args, g.ParamNames = append(g.Args, gv("x", ct.Elem())), []string{"ch", "x"}
+				} else {
+					g.Results, g.ResNames = []Val{gv("res", ct.Elem()), gv("ok", types.Typ[types.Bool])}, []string{"res", "ok"}
+				}
+			}
+		}
+		tr.ghostSites[alias] = g
+		return g
+	}
 	if !ok {
 		for _, aliases := range tr.storeSites {
 			for _, a := range aliases {
@@ -1510,6 +1716,11 @@ func (tr *FnTrans) doCall(st *BState, ci ssa.CallInstruction) Val {
 		st.lastNow = tr.smt.define("lastnow", "Int", inst)
 		tr.usedSpecs["successive time.Now() readings are non-decreasing (instants)"] = true
 	}
+	if spec != nil && len(spec.Invokes) > 0 {
+		tr.applyInvokes(st, site, spec, cc)
+		site.After = st.heap
+		st.heap = st.heap.child()
+	}
 	if spec != nil {
 		tr.applySpec(st, site, spec, cc)
 		// results the contract declares fresh were allocated during the call
@@ -1567,9 +1778,206 @@ func valueName(ci ssa.CallInstruction) string {
 	return "call"
 }
 
+// applyInvokes models a callee that calls a function literal handed to it (retry loops, visitors):
+// the variables the literal captures by reference and assigns are havocked, whatever else the literal
+// may write according to its own contract is havocked, and the literal's postconditions are assumed
+// for its last invocation (in the state after the call), provided it was invoked at all. The literal
+// is verified separately against that contract as the function Outer$N; its preconditions are
+// checked here, in the state in which the callee is entered.
+func (tr *FnTrans) applyInvokes(st *BState, site *Site, spec *Contract, cc *ssa.CallCommon) {
+	params, _ := sigNames(cc.Signature(), cc.IsInvoke())
+	if site.Invoked == nil {
+		site.Invoked = map[string]invokedFn{}
+	}
+	for _, pn := range spec.Invokes {
+		ai := -1
+		for i, n := range params {
+			if n == pn {
+				ai = i
+			}
+		}
+		if ai < 0 || ai >= len(cc.Args) {
+			continue
+		}
+		arg := cc.Args[ai]
+		if ct, ok := arg.(*ssa.ChangeType); ok {
+			arg = ct.X
+		}
+		mc, _ := arg.(*ssa.MakeClosure)
+		var cf *ssa.Function
+		if mc != nil {
+			cf, _ = mc.Fn.(*ssa.Function)
+		}
+		inv := invokedFn{Invoked: tr.smt.fresh("invoked_"+pn, "Bool")}
+		if cf == nil {
+			// not a function literal: nothing is known about what it does
+			st.heap = tr.newRoot()
+			tr.abstracted["call through function value "+pn+": all memory havoced"]++
+			site.Invoked[pn] = inv
+			continue
+		}
+		c2 := tr.eng.byFull[cf.String()]
+		// preconditions of the literal, in the state in which the callee starts
+		bind := func(h *Heap) map[string]Val {
+			vars := map[string]Val{}
+			for i, fv := range cf.FreeVars {
+				if i >= len(mc.Bindings) {
+					continue
+				}
+				bv := tr.val(mc.Bindings[i])
+				if _, isAl := mc.Bindings[i].(*ssa.Alloc); isAl {
+					et := fv.Type().Underlying().(*types.Pointer).Elem()
+					vars[fv.Name()] = Val{T: tr.load(h, bv.T, et, "true", true), Ty: et}
+				} else if pfv, isFV := mc.Bindings[i].(*ssa.FreeVar); isFV && capturedByRef(pfv) {
+					et := fv.Type().Underlying().(*types.Pointer).Elem()
+					vars[fv.Name()] = Val{T: tr.load(h, bv.T, et, "true", true), Ty: et}
+				} else {
+					vars[fv.Name()] = bv
+				}
+			}
+			return vars
+		}
+		if c2 != nil {
+			pre := &Env{tr: tr, heap: site.Before, oldHeap: site.Before, vars: bind(site.Before), quiet: true, lets: map[string]*Expr{}}
+			if cf.Pkg != nil {
+				pre.pkg = cf.Pkg.Pkg
+			}
+			for _, l := range c2.Lets {
+				pre.lets[l.Name] = l.C.E
+			}
+			for _, r := range c2.Requires {
+				tr.oblige("call-pre", fmt.Sprintf("precondition of function literal %s (invoked by %s): %s", cf.Name(), site.Callee, r.Src), st.reach, pre.evalGoal(r.E), site.Pos)
+			}
+			tr.usedSpecs["function literal "+cf.Name()+" is invoked only by "+site.Callee+", in states that differ from the call state only by the literal's own writes (its preconditions are checked in the call state)"] = true
+		}
+		// effects: captured variables the literal assigns, and what its contract lets it modify
+		for i, fv := range cf.FreeVars {
+			if i >= len(mc.Bindings) {
+				continue
+			}
+			writes := false
+			for _, b := range cf.Blocks {
+				for _, in := range b.Instrs {
+					s, ok := in.(*ssa.Store)
+					if !ok {
+						continue
+					}
+					// a store to the variable itself or to a field / element of it
+					for a := s.Addr; a != nil; {
+						if a == ssa.Value(fv) {
+							writes = true
+						}
+						switch y := a.(type) {
+						case *ssa.FieldAddr:
+							a = y.X
+						case *ssa.IndexAddr:
+							a = y.X
+						default:
+							a = nil
+						}
+					}
+				}
+			}
+			for _, ref := range *fv.Referrers() {
+				switch r := ref.(type) {
+				case *ssa.Store, *ssa.FieldAddr, *ssa.IndexAddr, *ssa.DebugRef:
+				case *ssa.UnOp:
+					if r.Op != token.MUL {
+						writes = true
+					}
+				default:
+					writes = true // its address goes somewhere else (another literal, a call)
+				}
+			}
+			if !writes {
+				continue
+			}
+			pt, ok := fv.Type().Underlying().(*types.Pointer)
+			if !ok {
+				continue
+			}
+			bv := tr.val(mc.Bindings[i])
+			nv := tr.introduce("inv_"+fv.Name(), pt.Elem(), st.reach, "assigned by function literal "+cf.Name())
+			tr.store(st.heap, bv.T, pt.Elem(), nv.T)
+		}
+		if c2 == nil || !(c2.Pure || (c2.ModSet && len(c2.Modifies) == 0)) {
+			if c2 != nil && c2.ModSet && len(c2.Modifies) > 0 {
+				// modifies clauses of the literal are written over its captured variables
+				env := &Env{tr: tr, heap: st.heap, oldHeap: site.Before, vars: bind(st.heap), quiet: true}
+				if cf.Pkg != nil {
+					env.pkg = cf.Pkg.Pkg
+				}
+				okAll := true
+				for _, m := range c2.Modifies {
+					a, t, ok := env.addrOf(m.E)
+					if !ok {
+						okAll = false
+						break
+					}
+					nv := tr.introduce("invmod", t, st.reach, "modified by function literal "+cf.Name())
+					tr.store(st.heap, a, t, nv.T)
+				}
+				if !okAll {
+					st.heap = tr.newRoot()
+				}
+			} else {
+				st.heap = tr.newRoot()
+				tr.abstracted["function literal "+cf.Name()+" without a frame: all memory havoced"]++
+			}
+		}
+		// results of the last invocation and what the literal guarantees about it
+		sig := cf.Signature
+		for i := 0; i < sig.Results().Len(); i++ {
+			inv.Results = append(inv.Results, tr.introduce(fmt.Sprintf("last_%s_r%d", pn, i), sig.Results().At(i).Type(), st.reach, "result of the last invocation of "+cf.Name()))
+		}
+		site.Invoked[pn] = inv
+		if c2 != nil {
+			post := &Env{tr: tr, heap: st.heap, oldHeap: site.Before, vars: bind(st.heap), quiet: true, lets: map[string]*Expr{}, results: inv.Results, atReturn: true}
+			if cf.Pkg != nil {
+				post.pkg = cf.Pkg.Pkg
+			}
+			for i := 0; i < sig.Results().Len(); i++ {
+				n := sig.Results().At(i).Name()
+				if n == "" {
+					n = fmt.Sprintf("result%d", i)
+				}
+				post.resNames = append(post.resNames, n)
+			}
+			for _, l := range c2.Lets {
+				post.lets[l.Name] = l.C.E
+			}
+			siteIDs := map[string]bool{}
+			for _, sd := range c2.Sites {
+				siteIDs[sd.Alias] = true
+			}
+			for _, en := range c2.Ensures {
+				if mentions(en.E, siteIDs) || mentionsOld(en.E) {
+					continue // speaks about the literal's own calls or about its pre-state: not visible here
+				}
+				tr.assume(and(st.reach, inv.Invoked), post.evalHyp(en.E), "ensures of function literal "+cf.Name()+" (last invocation): "+en.Src)
+			}
+		}
+	}
+}
+
+func mentionsOld(x *Expr) bool {
+	if x == nil {
+		return false
+	}
+	if x.Op == "old" {
+		return true
+	}
+	for _, a := range x.A {
+		if mentionsOld(a) {
+			return true
+		}
+	}
+	return false
+}
+
 // calleeEnv builds the environment in which a callee's contract is evaluated at a call site.
 func (tr *FnTrans) calleeEnv(site *Site, spec *Contract, cc *ssa.CallCommon) *Env {
-	env := &Env{tr: tr, heap: site.After, oldHeap: site.Before, vars: map[string]Val{}, quiet: true, lets: map[string]*Expr{}}
+	env := &Env{tr: tr, heap: site.After, oldHeap: site.Before, vars: map[string]Val{}, quiet: true, lets: map[string]*Expr{}, invoked: site.Invoked}
 	for _, l := range spec.Lets {
 		env.lets[l.Name] = l.C.E
 	}
@@ -1824,6 +2232,9 @@ func (tr *FnTrans) assumeStable(st *BState, before, after *Heap) {
 	if tr.c == nil {
 		return
 	}
+	for _, sf := range tr.stableFlds {
+		tr.stableCells(st, sf.addr, sf.ty, before, after)
+	}
 	for _, sv := range tr.stableVals {
 		pt, ok := sv.Ty.Underlying().(*types.Pointer)
 		if !ok {
@@ -1850,7 +2261,68 @@ func (tr *FnTrans) assumeGlobalInvs(guard string, h *Heap) {
 
 // preserveLocals re-establishes, after a havoc caused by a callee, the cells of local variables
 // whose address never escapes: no callee can write them.
+// preservePrivate: the object a `private` local pointer variable points to cannot be reached by any
+// callee (checked syntactically: frame:private), so its fields keep their values through a call.
+func (tr *FnTrans) preservePrivate(st *BState, before, after *Heap) {
+	if tr.c == nil || len(tr.c.Private) == 0 {
+		return
+	}
+	for _, al := range tr.allocs {
+		if !contains(tr.c.Private, al.Comment) || tr.escapeOf(al) {
+			continue
+		}
+		av, ok := tr.vals[al]
+		if !ok {
+			continue
+		}
+		pt, ok := al.Type().Underlying().(*types.Pointer).Elem().Underlying().(*types.Pointer)
+		if !ok {
+			continue
+		}
+		stt, ok := pt.Elem().Underlying().(*types.Struct)
+		if !ok {
+			continue
+		}
+		p := tr.load(before, av.T, al.Type().Underlying().(*types.Pointer).Elem(), st.reach, true)
+		for i := 0; i < stt.NumFields(); i++ {
+			ft := stt.Field(i).Type()
+			srt := tr.smt.sortOf(ft)
+			if _, isStruct := ft.Underlying().(*types.Struct); isStruct {
+				continue
+			}
+			if _, isArr := ft.Underlying().(*types.Array); isArr {
+				continue
+			}
+			b, a := before.lookup(srt), after.lookup(srt)
+			if a == b {
+				continue
+			}
+			addr := tr.fldAddr(p, stt, i)
+			tr.assume(and(st.reach, fmt.Sprintf("(not (= %s nil))", p)), fmt.Sprintf("(= (select %s %s) (select %s %s))", a, addr, b, addr), "private object of "+al.Comment)
+		}
+	}
+}
+
+// preserveCaptured: variables of the enclosing function that nobody assigns once the function
+// literal exists keep their value through any havoc.
+func (tr *FnTrans) preserveCaptured(st *BState, before, after *Heap) {
+	// variables of the enclosing function that nobody assigns once the function literal exists
+	for _, fv := range tr.fn.FreeVars {
+		if !capturedByRef(fv) || !immutableCapture(fv) {
+			continue
+		}
+		v, ok := tr.vals[fv]
+		if !ok {
+			continue
+		}
+		tr.usedSpecs["captured variable "+fv.Name()+" is assigned only before the function literal is created (syntactic check)"] = true
+		tr.stableCells(st, v.T, fv.Type().Underlying().(*types.Pointer).Elem(), before, after)
+	}
+}
+
 func (tr *FnTrans) preserveLocals(st *BState, before, after *Heap) {
+	tr.preserveCaptured(st, before, after)
+	tr.preservePrivate(st, before, after)
 	for _, al := range tr.allocs {
 		if tr.escapeOf(al) {
 			continue
@@ -1965,7 +2437,8 @@ func (tr *FnTrans) builtin(st *BState, ci ssa.CallInstruction, b *ssa.Builtin) V
 		et := dst.Ty.Underlying().(*types.Slice).Elem()
 		tr.copyCells(st, et, dst, src, n)
 		return Val{T: n, Ty: intT}
-	case "print", "println":
+	case "print", "println", "close":
+		// close(ch): no memory of the model changes (receivers see ok == false, which is unconstrained anyway)
 		return Val{}
 	case "delete":
 		m, k := args[0], args[1]
